@@ -39,6 +39,17 @@ theorem any_loop2 {α : Type} (f g : α → Bool) (l : List α) :
       · simp only [h, h2, List.any_cons, Bool.false_or]
         simpa using ih
 
+/-- a `for … range` that ends at the first element passing the test `t`, with an abstract body: all it has to do
+    is to end the loop with the state `d` on such an element and to go on unchanged on the others -/
+theorem any_loop_gen {α σ : Type} (t : α → Bool) (f : α → σ → Option (ForInStep σ)) (l : List α) (init d : σ)
+    (hf : ∀ x, f x init = some (if t x = true then ForInStep.done d else ForInStep.yield init)) :
+    forIn l init f = some (if l.any t = true then d else init) := by
+  induction l with
+  | nil => simp
+  | cons a t' ih =>
+    rw [List.forIn_cons, hf]
+    cases h : t a <;> simp [ih, h]
+
 /-- the fields of the filter value the model reads -/
 def cfgOf (c : ImpGen.GoCrossOriginResourceSharing) : Cors.CorsCfg :=
   { exposeHeaders := c.ExposeHeaders, allowedHeaders := c.AllowedHeaders, allowedDomains := c.AllowedDomains,
@@ -89,7 +100,14 @@ theorem isValidHeader_tie (X : ImpGen.Ext) (c : ImpGen.GoCrossOriginResourceShar
     ImpGen.CrossOriginResourceSharing_isValidAccessControlRequestHeader X c h
       = some (Cors.isValidAccessControlRequestHeader X.strings_ToLower h (cfgOf c).allowedHeaders) := by
   unfold ImpGen.CrossOriginResourceSharing_isValidAccessControlRequestHeader
-  simp only [Option.bind_eq_bind, Option.pure_def, any_loop2, Option.bind_some, isValidHeader_eq, cfgOf]
+  simp only [Option.bind_eq_bind, Option.pure_def]
+  -- the loop returns at the first element that passes the test, however the body spells the test (two `if`s,
+  -- one `||`, the lower-cased header computed once before the loop)
+  rw [any_loop_gen (fun e => X.strings_ToLower e == X.strings_ToLower h || e == "*".toList)]
+  case hf =>
+    intro x
+    cases (X.strings_ToLower x == X.strings_ToLower h) <;> cases (x == "*".toList) <;> rfl
+  simp only [Option.bind_some, isValidHeader_eq, cfgOf]
   generalize (c.AllowedHeaders.any _) = b
   cases b <;> rfl
 
@@ -251,11 +269,14 @@ theorem filter_tie' (X : ImpGen.Ext) (hitoa : X.strconv_Itoa = Cors.itoa) (E : R
         simp only [hm1, Bool.false_eq_true, if_false]
         simp only [hm, ne_eq, not_true_eq_false, if_false]
         by_cases hq : rq.acrm = []
+        -- "no Access-Control-Request-Method" in whichever polarity the code tests it
         · have hq1 : (rq.acrm != []) = false := by rw [hq]; rfl
-          simp only [hq1, Bool.false_eq_true, if_false]
+          have hq2 : (rq.acrm == []) = true := by rw [hq]; rfl
+          simp only [hq1, hq2, Bool.false_eq_true, if_false, if_true]
           simp only [hq, ne_eq, not_true_eq_false, if_false, Option.map_some, if_true, push]
         · have hq1 : (rq.acrm != []) = true := by simpa using hq
-          simp only [hq1, hq, ne_eq, not_false_eq_true, if_true, Option.map_map]
+          have hq2 : (rq.acrm == []) = false := by simpa using hq
+          simp only [hq1, hq2, hq, ne_eq, not_false_eq_true, if_true, Option.map_map, Bool.false_eq_true, if_false]
           cases Cors.doPreflightRequest X.strings_ToLower E (cfgOf c) tbl rq with
           | none => rfl
           | some r => simp only [Option.map_some, Option.bind_some, Function.comp, Bool.false_eq_true, if_false]
